@@ -55,6 +55,46 @@ META = {
         detected_by={"C09": "hist:gbs_called_every_update, hist:stored_floor, hist:stored_frozen_equals_previous"},
         strengthening="C09 histories now cover every accepted regime (incl. null and diffusion regimes, regime switches) with initially sub-threshold grains",
     ),
+    "C03": dict(
+        summary="the two 'no slip system can be activated' early returns of _get_rotation_and_strain return a bare vorticity tensor 0.5*(L^T - L) "
+                "(new helper) that is never composed with the grain's orientation: R^T dR/dt is not skew for non-identity no-slip grains",
+        needs="an exactly axis-aligned, non-identity grain (all slip invariants exactly 0, or only the inactive system sheared as for C-type olivine "
+              "in simple shear) and a velocity gradient with non-zero vorticity",
+        detected_before_strengthening=True,
+        detected_by={"C03": "spin_skew[direct] on the degenerate-input catalogue (24 axis-aligned orientations x shears x fabrics)"},
+        strengthening=None,
+    ),
+    "C04": dict(
+        summary="enstatite-only fast path in _get_deformation_rate builds the slip tensor from columns (orientation[i,2]*orientation[j,0]) instead of rows",
+        needs="enstatite, active (100)[001] slip, a grain orientation that is genuinely 3-D relative to the flow (in-plane rotations give identical numbers)",
+        detected_before_strengthening=True,
+        detected_by={"C04": "rate:twofold, rate:frame_rotation, int-rot:textures_related", "C02": "rotation_rate_equals_reference"},
+        strengthening=None,
+    ),
+    "C06": dict(
+        summary="eval_rhs returns np.zeros_like(y) when strain_rate_max == 0 ('no deformation, nothing evolves'): for a rigid rotation (D = 0, L != 0) "
+                "the returned F is frozen instead of rotating",
+        needs="a non-zero velocity gradient whose symmetric part is exactly zero for at least part of the interval",
+        detected_before_strengthening=False,
+        detected_by={"C06": "F_equals_reference on pure-spin velocity gradients"},
+        strengthening="new velocity-gradient class 'pure_spin' (also as second stage of multirate histories) in every history generator",
+    ),
+    "C08": dict(
+        summary="phase volume fraction looked up through a module-level cache keyed by (id(params), phase) that is never invalidated: hidden state "
+                "shared by all minerals in the process",
+        needs="the same params dict object seen with two different fraction values (dict mutated in place between runs), or a recycled id()",
+        detected_before_strengthening=True,
+        detected_by={"C08": "e:mutated_params_dict_equals_fresh_dict (deterministic); before strengthening only through a recycled id() (b:permutation_bit_identical)"},
+        strengthening="new relation (e): the same parameter-dict object is mutated in place between two runs and must behave like a fresh dict",
+    ),
+    "C10": dict(
+        summary="voigt_averages takes its 3^4 single-crystal tensors from a module-level cache keyed by id(elastic_tensors)",
+        needs="two calls in one process with the same StiffnessTensors instance whose attributes were modified in between (documented customisation "
+              "route), or a recycled id()",
+        detected_before_strengthening=True,
+        detected_by={"C10": "second_call_after_inplace_mutation (deterministic); before strengthening only through a recycled id() (equals_reference_average)"},
+        strengthening="new sub-oracle: attributes of the same StiffnessTensors instance and textures of the same Mineral objects are changed in place and the average recomputed",
+    ),
 }
 
 
